@@ -48,4 +48,19 @@ def aboutSelf (self : Nat) : SysEvent → Bool
   | .inprocBindingRequest forMe _ taken mailboxClosed => forMe && (taken || mailboxClosed)
   | _ => false
 
+-- the connecter's wait between two attempts -----------------------------------------------------------------------
+
+inductive WaitEv where
+  | ownShutdown      -- ContextTerminating, or SocketClosing of the connecter's own socket
+  | unrelated        -- any other system event of the context (another socket's actors starting, stopping, failing)
+deriving DecidableEq, Repr
+
+/-- `wait_for_retry_delay_internal`: the system events received during the wait, each with the time (ms after the wait
+began) at which it arrives. Result: `some t` = the next attempt starts `t` ms after the wait began; `none` = the connecter
+stops. `ignoresUnrelated = false` is the earlier shape (any event ended the wait). -/
+def retryWait (ignoresUnrelated : Bool) (delay : Nat) : List (Nat × WaitEv) → Option Nat
+  | [] => some delay
+  | (_, .ownShutdown) :: _ => none
+  | (t, .unrelated) :: rest => if ignoresUnrelated then retryWait ignoresUnrelated delay rest else some (min t delay)
+
 end Rzmq
